@@ -13,3 +13,8 @@ check("C10",
  "Decides the structural clauses of the codec contract: (1) every codec's GetFrame/AddFrame pairing is a counted loop 0..FrameCount()-1 with exactly one dominating AddFrame per cycle fed by that iteration's frame and error-only early exits; (2) no state is carried between calls or frames on jpeg2000.Encoder/Decoder objects and on any object a codec allocates outside its frame loop (fields read before being re-assigned and written during a call; accumulate-only / never-reset / incompletely keyed caches are violations); (3) no write effect on the caller's input bytes; (4) no nondeterminism sources, every map range order-insensitive; (5) information-flow necessary condition for the decoded container width to follow BitsAllocated. Byte equality of lossless round trips and numeric output are not decided.",
  "trusted: as C18 (shared engine E1) plus the must-definition analysis' treatment of nil/error guards; known findings: 6 codecs ignore BitsAllocated (recorded, not repaired)",
  "DESIGN.md §4 C10, §3.2")
+check("C08",
+ "interprocedural interval + stream-taint (abstract interpretation over SSA) on panic-capable integer operations",
+ "Decides the listed panic classes only: over every function reachable from a decoding entry point, each fixed-size-array index, integer divisor, make size, signed shift count, comma-less type assertion and explicit panic is an obligation. 'Discharged' is a sound over-approximation in the interval/known-bits domain; 'violated' is reported only on a witness shape (stream-tainted operand that is exactly out of range, has no limit applied at all, or is a never-compared field still holding its zero value); the rest is counted out-of-scope. Slice/string bounds, nil dereference and stack depth are NOT decided, so a clean run does not imply C08; a violation refutes it.",
+ "trusted: go/ssa, VTA call graph, points-to closure deciding which byte buffers hold stream data, field/element summaries with exit-refined stores (assumes parse errors are propagated and the object dropped)",
+ "DESIGN.md §4 C08, §3.3")
